@@ -631,3 +631,40 @@ Theorem cs_retry_after_has_error_refuted :
     let '(r2, proc2, st2) := cs_store_seq proc1 st1 i b false false in
     r1 = false /\ r2 = true /\ has st2 i = false.
 Proof. exists [], [], 5%N, [5%N]. vm_compute. repeat split; reflexivity. Qed.
+
+(* ================= C07: the same functions under cancellation ================= *)
+Lemma chop_cancel_sound : forall H rows fault store0 nw sched,
+  store_ok H store0 ->
+  let s := run (bstep H MChop rows (fun _ => None) fault true) sched (binit store0 nw) in
+  bfinal s = true -> bulk_result s = RNil ->
+  forall k, k < length rows ->
+    exists b, lookup (b_store s) (fst (nth k rows (0%N, []))) = Some b /\ H b = fst (nth k rows (0%N, [])).
+Proof.
+  intros H rows fault store0 nw sched Hs.
+  exact (bulk_complete H MChop rows (fun _ => None) fault true store0 nw sched Hs (fun E => match E with eq_refl => I end)).
+Qed.
+
+Lemma copy_cancel_sound : forall H ids src fault store0 nw sched,
+  store_ok H store0 -> src_ok H src ->
+  let s := run (bstep H MCopy ids src fault true) sched (binit store0 nw) in
+  bfinal s = true -> bulk_result s = RNil ->
+  forall k, k < length ids ->
+    exists b, lookup (b_store s) (fst (nth k ids (0%N, []))) = Some b /\ H b = fst (nth k ids (0%N, [])).
+Proof.
+  intros H ids src fault store0 nw sched Hs Hsrc.
+  exact (bulk_complete H MCopy ids src fault true store0 nw sched Hs (fun _ => Hsrc)).
+Qed.
+
+Lemma chunkstream_cancel_sound : forall H chunks fault store0 nw sched,
+  store_ok H store0 ->
+  let s := run (bstep H MStream chunks (fun _ => None) fault true) sched (binit store0 nw) in
+  bfinal s = true -> bulk_result s = RNil ->
+  stream_index chunks s = map (fun j => Some (H (snd j))) chunks /\
+  forall k, k < length chunks ->
+    exists b, lookup (b_store s) (H (snd (nth k chunks (0%N, [])))) = Some b /\ H b = H (snd (nth k chunks (0%N, []))).
+Proof.
+  intros H chunks fault store0 nw sched Hs s Hfin Hres. split.
+  - exact (stream_index_exact H chunks (fun _ => None) fault true store0 nw sched Hfin Hres).
+  - exact (bulk_complete H MStream chunks (fun _ => None) fault true store0 nw sched Hs
+             (fun E => match E with eq_refl => I end) Hfin Hres).
+Qed.
